@@ -897,6 +897,7 @@ def main():
     ap.add_argument("--job", help="only jobs whose name matches this regex")
     ap.add_argument("--no-evidence", action="store_true")
     ap.add_argument("--max-shards", type=int, default=0, help="development: only the first N shards of every job")
+    ap.add_argument("--shard-filter", help="development: only shards whose parameters match, e.g. 0=12,2=3")
     a = ap.parse_args()
     sys.path.insert(0, VERIF)
     if a.replay:
@@ -906,6 +907,17 @@ def main():
     spec = specs.PROPS[a.prop]
     if a.job:
         spec = dict(spec); spec["jobs"] = [j for j in spec["jobs"] if re.search(a.job, j["name"])]
+    if a.shard_filter:
+        flt = {int(kv.split("=")[0]): int(kv.split("=")[1]) for kv in a.shard_filter.split(",")}
+        keep = lambda sh: [x for x in sh if all(x.get(k) == v for k, v in flt.items())]
+        spec = dict(spec); js = []
+        for j in spec["jobs"]:
+            j = dict(j); sh = j.get("shards")
+            if isinstance(sh, dict): j["shards"] = {k: keep(v) for k, v in sh.items()}
+            elif isinstance(sh, list): j["shards"] = keep(sh)
+            else: continue
+            if (j["shards"].get(a.tier) if isinstance(j["shards"], dict) else j["shards"]): js.append(j)
+        spec["jobs"] = js
     if a.max_shards:
         spec = dict(spec); js = []
         for j in spec["jobs"]:
